@@ -13,7 +13,7 @@ exhaustive enumerations where the property has them), merges the evidence into
 """
 import hashlib, json, os, subprocess, sys, time, shutil, struct, glob
 
-V = '/verif'
+V = os.environ.get('VERIF_ROOT') or os.path.dirname(os.path.dirname(os.path.abspath(__file__)))
 REPO = os.environ.get('VERIF_REPO', '/repo')
 WORK = os.path.join(V, 'work')
 BIN = os.path.join(WORK, 'bin')
@@ -53,7 +53,7 @@ def ensure_driver():
 def build_sim(pid, flavour):
     out = f'{WORK}/{pid}/sim_{flavour}'
     shutil.rmtree(out, ignore_errors=True)
-    r = sh(f'{V}/tools/build_sim.sh {flavour} {out}', env=dict(os.environ, VERIF_REPO=REPO))
+    r = sh(f'{V}/tools/build_sim.sh {flavour} {out}', env=dict(os.environ, VERIF_REPO=REPO, VERIF_ROOT=V))
     if r.returncode != 0:
         print(r.stdout)
         print(f'check.py: building the simulated nsync ({flavour}) from {REPO} failed')
